@@ -14,7 +14,7 @@ func init() {
 }
 
 func rulesC19(c *Ctx, r *Report) {
-	r.explain("Decides: (PURE) PreOrder, PostOrder and traverse never write the tree (nodes, Children slices) — directly or through callees such as sorting/reversing helpers; (ACYCLIC) no function reachable from PreOrder/PostOrder is on a call-graph cycle — the traversal does not recurse, so depth is bounded by the heap, not the stack; (STALE-ELEM) no pointer into an element of the explicit stack is used after an append to that stack (which may reallocate and leave the pointer in the old array); (REENTRANT) the iterator body assigns to no captured variable, so the same iterator value can run twice (nested or via iter.Pull) without sharing a stack; (YD1) no callback after a false result; (STEP) the explicit-stack step: a node is yielded in pre-order exactly when its child index is 0 and in post-order exactly when its child index equals len(Children), the child pushed is Children[i] of the same node, and i advances by one per push. Not decided: that these steps compose to the classic recursive order (exactly once, parents before/after descendants) as an equality of sequences. STEP additionally: child index as wide as a slice length; no explicit panic in the step function.")
+	r.explain("Decides: (PURE) PreOrder, PostOrder and traverse never write the tree (nodes, Children slices) — directly or through callees such as sorting/reversing helpers; (ACYCLIC) no function reachable from PreOrder/PostOrder is on a call-graph cycle — the traversal does not recurse, so depth is bounded by the heap, not the stack; (STALE-ELEM) no pointer into an element of the explicit stack is used after an append to that stack (which may reallocate and leave the pointer in the old array); (REENTRANT) the iterator body assigns to no captured variable, so the same iterator value can run twice (nested or via iter.Pull) without sharing a stack; (YD1) no callback after a false result; (STEP) the explicit-stack step: a node is yielded in pre-order exactly when its child index is 0 and in post-order exactly when its child index equals len(Children), the child pushed is Children[i] of the same node, and i advances by one per push. Not decided: that these steps compose to the classic recursive order (exactly once, parents before/after descendants) as an equality of sequences. STEP additionally: child index as wide as a slice length; no explicit panic in the step function. (STACK-OPS, the universal form of STEP) inside the loop every value of the stack's type is the loop variable, a push of one frame (only on the side of the children test where the frame still has children) or a drop of the top frame (only on the exhausted side), and every store into a stack element advances the child index of the frame that was on top before the push by exactly one; pushes and advances pair up. Any other edit of a frame (re-using a frame for a sibling, advancing a deeper frame) is reported.")
 	e := effFor(c)
 	var roots []*ssa.Function
 	for _, name := range []string{"(*Node).PreOrder", "(*Node).PostOrder", "role:newick.traverse"} {
@@ -66,6 +66,7 @@ func rulesC19(c *Ctx, r *Report) {
 		}
 	}
 	rulesTraverseStep(c, r)
+	rulesStackOps(c, r)
 }
 
 // calleesOf: direct static callees and closures of f.
